@@ -17,8 +17,28 @@ from vlib import common as C
 FLAVOR = 'c15asan'
 SAN_ENV = {'ASAN_OPTIONS': 'detect_leaks=1:halt_on_error=1:abort_on_error=0:allocator_may_return_null=1',
            'UBSAN_OPTIONS': 'print_stacktrace=1:halt_on_error=0'}
-# innermost frame whose source file belongs to one of the five libraries (whatever the namespace): function name, file name
-LIBFRAME = r'#\d+ 0x[0-9a-f]+ in ([^\s(]+)[^\n]*?/cola/lib\w+/(\w+\.(?:cpp|h)):'
+# innermost frame whose source file belongs to one of the five libraries (whatever the namespace)
+_FRAME = re.compile(r'#\d+ 0x[0-9a-f]+ in ([^\n]*?) (/[^\n ]*/cola/lib\w+/(\w+\.(?:cpp|h))):\d+')
+
+
+class _Fr:
+    def __init__(self, func, file):
+        self.func, self.file = func, file
+
+    def group(self, i):
+        return self.func if i == 1 else self.file
+
+
+def lib_frame(text):
+    """(function, file) of the innermost library frame in a sanitizer stack: arguments and a leading return type are dropped"""
+    m = _FRAME.search(text)
+    if not m:
+        return None
+    f = m.group(1).replace('operator()', 'operator!call')
+    f = f.split('(')[0].strip()
+    f = re.sub(r'<[^<>]*>', '', re.sub(r'<[^<>]*>', '', f))          # template arguments (two levels)
+    f = f.split(' ')[-1].replace('operator!call', 'operator()')
+    return _Fr(f, m.group(3))
 
 
 def norm_expr(e):
@@ -34,7 +54,7 @@ def leak_sites(err):
         for blk in blks:
             if blk.startswith('Direct') != direct:
                 continue
-            fr = re.search(LIBFRAME, blk)
+            fr = lib_frame(blk)
             if fr:
                 fp = 'leak:%s:%s' % (fr.group(2), fr.group(1).strip())
                 if fp not in out:
@@ -64,10 +84,10 @@ def fingerprint(rc, out, err):
     a = re.search(r'(\w+\.(?:cpp|h)):(\d+): [^\n]*Assertion [`\']([^\n]*)\' failed', err)
     if a:
         return 'assert:%s:%s' % (a.group(1), norm_expr(a.group(3)))
-    m = re.search(r'ERROR: (\w+Sanitizer): ([\w-]+)', err)
+    m = re.search(r'ERROR: (\w+Sanitizer): (attempting )?([\w-]+)', err)
     if m and m.group(1) != 'LeakSanitizer':
-        kind = m.group(2)
-        fr = re.search(LIBFRAME, err)
+        kind = m.group(3)
+        fr = lib_frame(err)
         return '%s:%s:%s' % (kind, fr.group(2) if fr else '?', fr.group(1).strip() if fr else '?')
     if 'LeakSanitizer' in err or 'leaked in' in err:
         sites = leak_sites(err)
@@ -501,7 +521,7 @@ def sweep(res, tier, rng, reports, only=None):
             if fp.startswith('leak:'):
                 # the part of the report that belongs to this site
                 blks = [bl for bl in re.split(r'\n(?=(?:Direct|Indirect) leak of)', err) if re.match(r'(Direct|Indirect) leak', bl)]
-                mine = [bl for bl in blks if (lambda fr: fr and 'leak:%s:%s' % (fr.group(2), fr.group(1).strip()) == fp)(re.search(LIBFRAME, bl))]
+                mine = [bl for bl in blks if (lambda fr: fr and 'leak:%s:%s' % (fr.group(2), fr.group(1).strip()) == fp)(lib_frame(bl))]
                 rep = '\n'.join('\n'.join(bl.split('\n')[:12]) for bl in mine[:2])[:3000]
             else:
                 rep = '\n'.join(l for l in err.split('\n') if re.match(r'\s+#[0-9] ', l) or 'SUMMARY' in l or 'ERROR' in l or 'Assertion' in l
